@@ -27,8 +27,10 @@ ENGINES = {
     "gomp_fiber":   ("engine/gomp_fiber.cpp",   ["-O2", "-g"]),
     "gomp_fiber_asan": ("engine/gomp_fiber.cpp", ["-O1", "-g", "-fsanitize=address", "-DVS_ASAN"]),
     "gomp_pthread": ("engine/gomp_pthread.cpp", ["-O2", "-g", "-pthread"]),
+    "gomp_pthread_tsan": ("engine/gomp_pthread.cpp", ["-O1", "-g", "-pthread", "-fsanitize=thread"]),
     "gomp_serial":  ("engine/gomp_serial.cpp",  ["-O2", "-g"]),
     "heapfill":     ("engine/heapfill.cpp",     ["-O2", "-g"]),
+    "heapfill_asan": ("engine/heapfill.cpp",    ["-O1", "-g", "-fsanitize=address,undefined", "-fno-sanitize-recover=undefined"]),
 }
 
 
@@ -173,7 +175,7 @@ def match_known(known, pid, v):
     for k in known:
         if k.get("property") != pid or k.get("status") != "known":
             continue
-        if k.get("subcheck") not in (None, v["sub"]):
+        if k.get("subcheck") is not None and k.get("subcheck") != v["sub"]:
             continue
         m = k.get("match", {})
         if "key" in m and m["key"] != v["key"]:
